@@ -19,6 +19,8 @@ import (
 //
 //	case = (0 ncols pk rows runSize removed)      sort one table, both outputs
 //	     | (1 runSize pk (op ...))                 history; op = (0 row) AddRow | (1) Reset | (2) Close
+//	     | (2 runSize (use ...))                   ONE sorter reused; use = (ncols pk rows out removed): Reset,
+//	                                               SetColumns, PK = pk, AddRow..., out 0 SortedBlocks / 1 SortedRows
 //	  ncols   number of columns given to SetColumns (0 = SetColumns not called)
 //	  pk      key column indices, rows = ((cell ...) ...), cell = bytes
 //	  removed removed column indices (never a key column)
@@ -26,6 +28,7 @@ import (
 //	  status 0 ok | 1 AddRow error; blocks = ((offset pk rowcount (crow ...)) ...); rowsout = ((offset (crow ...)) ...)
 //	  crow = (0 cell ...) | (1 keycell ...) when some single run holds two different rows with that
 //	  key (the survivor then depends on Go's unstable sort.Slice); leftover = chunk files alive after Close
+//	observation (reuse) = (((status nchunks out) ...) leftover), out = blocks or rowsout as above
 //	observation (history) = ((ok live) ...) after every op.
 
 func init() { props["C19"] = &Prop{Gen: genC19, Run: runC19} }
@@ -254,9 +257,198 @@ type c19Block struct {
 	Rows      [][]string
 }
 
+// c19JudgeUse judges one output (flattened rows, plus the blocks when it is the block output)
+// of a sorter against sort + dedupe of the rows of that use.
+func c19JudgeUse(name string, ncols int, pk []int, rem map[int]bool, rows, out [][]string, blocks []c19Block,
+	bad func(class, format string, a ...interface{})) {
+	idx := c19PkIndices(ncols, pk)
+	idx2 := c19Shift(rem, idx)
+	byKey := map[string]map[string]bool{}
+	var keys [][]string
+	for _, r := range rows {
+		k := c19KeyOf(idx, r)
+		ks := c19KeyString(k)
+		if byKey[ks] == nil {
+			byKey[ks] = map[string]bool{}
+			keys = append(keys, k)
+		}
+		byKey[ks][c19KeyString(c19Remove(rem, r))] = true
+	}
+	sort.Slice(keys, func(i, j int) bool { return c19KeyLess(keys[i], keys[j]) })
+	width := ncols - len(rem)
+	for i, o := range out {
+		if len(o) != width {
+			bad("row-shape", "%s: row %d has %d cells, expected %d", name, i, len(o), width)
+			return
+		}
+		k := c19KeyOf(idx2, o)
+		if i >= len(keys) || c19KeyString(k) != c19KeyString(keys[i]) {
+			switch {
+			case i > 0 && c19KeyString(k) == c19KeyString(c19KeyOf(idx2, out[i-1])):
+				bad("duplicate-key", "%s: key %q emitted twice (rows %d,%d)", name, k, i-1, i)
+			case byKey[c19KeyString(k)] == nil:
+				bad("phantom-row", "%s: row %d %q has a key that is no input key", name, i, o)
+			default:
+				bad("missing-key", "%s: row %d has key %q, expected %q (%d rows for %d distinct keys)", name, i, k, keys[c19Min(i, len(keys)-1)], len(out), len(keys))
+			}
+			return
+		}
+		if !byKey[c19KeyString(k)][c19KeyString(o)] {
+			bad("phantom-row", "%s: row %d %q is not an input row with its key (removed columns dropped)", name, i, o)
+			return
+		}
+	}
+	if len(out) != len(keys) {
+		bad("missing-key", "%s: %d rows for %d distinct keys (first missing key %q)", name, len(out), len(keys), keys[len(out)])
+	}
+	for i, b := range blocks {
+		if b.Offset != i || b.RowsCount != len(b.Rows) || len(b.Rows) == 0 || len(b.Rows) > 255 || (i < len(blocks)-1 && len(b.Rows) != 255) {
+			bad("block-shape", "%s: block %d of %d: offset %d, RowsCount %d, %d rows", name, i, len(blocks), b.Offset, b.RowsCount, len(b.Rows))
+		}
+		if len(b.Rows) > 0 && len(b.Rows[0]) == width && c19KeyString(b.PK) != c19KeyString(c19KeyOf(idx2, b.Rows[0])) {
+			bad("block-pk", "%s: block %d PK %q but first row key %q", name, i, b.PK, c19KeyOf(idx2, b.Rows[0]))
+		}
+	}
+}
+
+// runC19Reuse: kind 2 = (2 runSize (use ...)), use = (ncols pk rows out removed).  ONE sorter
+// serves every use: Reset, SetColumns (ncols columns), PK = pk, AddRow for every row, then one
+// output (out 0 = SortedBlocks, 1 = SortedRows); Close at the end.
+// observation = (((status nchunks out) ...) leftover), status 1 = an AddRow failed (no output).
+func runC19Reuse(ctx *Ctx, c *xt.T) (*xt.T, Verdict) {
+	runSize := c.Kids[1].N
+	v := OK()
+	bad := func(class, format string, a ...interface{}) {
+		if v.OK {
+			v = Fail(class, format, a...)
+		}
+	}
+	obs := xt.N()
+	leftover := 0
+	c19WithTmp(ctx, func(dir string) {
+		s, err := sorter.NewSorter(sorter.WithRunSize(runSize))
+		if err != nil {
+			panic(err)
+		}
+		for ui, u := range c.Kids[2].Kids {
+			ncols := int(u.Kids[0].N)
+			pk := c19Ints(u.Kids[1])
+			rows := c19DecodeRows(u.Kids[2])
+			wantBlocks := u.Kids[3].N == 0
+			remL := c19Ints(u.Kids[4])
+			rem := map[int]bool{}
+			for _, x := range remL {
+				rem[x] = true
+			}
+			name := fmt.Sprintf("use %d", ui)
+			s.Reset()
+			if n := c19ListTmp(dir); n != 0 {
+				bad("leftover-chunk", "%s: %d chunk files alive after Reset", name, n)
+			}
+			cols := make([]string, ncols)
+			for i := range cols {
+				cols[i] = fmt.Sprintf("c%d", i)
+			}
+			s.SetColumns(cols)
+			s.PK = make([]uint32, len(pk))
+			for i, x := range pk {
+				s.PK[i] = uint32(x)
+			}
+			failed, over := false, false
+			for _, r := range rows {
+				for _, cell := range r {
+					if len(cell) > 65535 {
+						over = true
+					}
+				}
+			}
+			for _, r := range rows {
+				if s.AddRow(r) != nil {
+					failed = true
+					break
+				}
+			}
+			if failed {
+				if !over {
+					bad("addrow-error", "%s: AddRow failed although every cell is within the limit", name)
+				}
+				obs.Add(xt.N(xt.LI(1), xt.LI(0), xt.N()))
+				continue
+			}
+			if over {
+				bad("overlimit-accepted", "%s: a cell over 65535 bytes was accepted", name)
+			}
+			nchunks := s.VerifChunkCount()
+			idx := c19PkIndices(ncols, pk)
+			idx2 := c19Shift(rem, idx)
+			amb := c19Ambiguous(c19RunsOf(rows, runSize), idx)
+			out := xt.N()
+			errCh := make(chan error, 1)
+			var flat [][]string
+			var blocks []c19Block
+			if wantBlocks {
+				for b := range s.SortedBlocks(context.Background(), c19RemMap(remL, ui%2 == 0), errCh) {
+					_, blk, err := objects.ReadBlockFrom(bytes.NewReader(b.Block))
+					if err != nil {
+						bad("block-undecodable", "%s: ReadBlockFrom: %v", name, err)
+					}
+					blocks = append(blocks, c19Block{b.Offset, b.PK, b.RowsCount, blk})
+					flat = append(flat, blk...)
+					rs := xt.N()
+					for _, o := range blk {
+						rs.Add(c19CrowSafe(amb, idx2, o))
+					}
+					out.Add(xt.N(xt.LI(b.Offset), xt.Strs(b.PK), xt.LI(b.RowsCount), rs))
+				}
+			} else {
+				for r := range s.SortedRows(context.Background(), c19RemMap(remL, ui%2 == 0), errCh) {
+					flat = append(flat, r.Rows...)
+					rs := xt.N()
+					for _, o := range r.Rows {
+						rs.Add(c19CrowSafe(amb, idx2, o))
+					}
+					out.Add(xt.N(xt.LI(r.Offset), rs))
+				}
+			}
+			select {
+			case err := <-errCh:
+				bad("sorter-error", "%s: %v", name, err)
+			default:
+			}
+			c19JudgeUse(name, ncols, pk, rem, rows, flat, blocks, bad)
+			obs.Add(xt.N(xt.LI(0), xt.LI(nchunks), out))
+		}
+		if err := s.Close(); err != nil {
+			bad("close-error", "Close: %v", err)
+		}
+		leftover = c19ListTmp(dir)
+		if leftover != 0 {
+			bad("leftover-chunk", "%d chunk files alive after Close", leftover)
+		}
+	})
+	return xt.N(obs, xt.LI(leftover)), v
+}
+
+// c19CrowSafe is c19Crow for rows that may be too short for the key positions.
+func c19CrowSafe(amb map[string]bool, idx2 []int, o []string) *xt.T {
+	for _, u := range idx2 {
+		if u >= len(o) {
+			t := xt.N(xt.LI(0))
+			for _, c := range o {
+				t.Add(xt.Str(c))
+			}
+			return t
+		}
+	}
+	return c19Crow(amb, idx2, o)
+}
+
 func runC19(ctx *Ctx, c *xt.T) (*xt.T, Verdict) {
 	if c.Kids[0].N == 1 {
 		return runC19Hist(ctx, c)
+	}
+	if c.Kids[0].N == 2 {
+		return runC19Reuse(ctx, c)
 	}
 	ncols := int(c.Kids[1].N)
 	pk := c19Ints(c.Kids[2])
@@ -688,6 +880,78 @@ func genC19(ctx *Ctx) []Case {
 		rows := [][]string{{"k1", "v"}, {"k0", strings.Repeat("L", ln)}, {"k2", "w"}}
 		add("limit", true, c19SortCase(2, []int{0}, rows, 100, nil))
 		ctx.Count("limit_cells")
+	}
+	// ---- one sorter reused for several tables (Reset, SetColumns, PK change between uses) ----
+	useT := func(ncols int, pk []int, rows [][]string, out int, rem []int) *xt.T {
+		return xt.N(xt.LI(ncols), xt.Ints(pk), c19Rows(rows), xt.LI(out), xt.Ints(rem))
+	}
+	for _, rs := range []uint64{1, huge} {
+		for out := 0; out < 2; out++ {
+			// key-less 2 columns, then key-less 3 columns whose rows agree on the first two; then keyed; then narrower
+			add("witness", true, xt.N(xt.LI(2), xt.L(rs), xt.N(
+				useT(2, nil, [][]string{{"1", "x"}, {"0", "y"}}, out, nil),
+				useT(3, nil, [][]string{{"1", "x", "p"}, {"2", "y", "r"}, {"1", "x", "q"}}, out, nil),
+				useT(3, []int{2}, [][]string{{"1", "x", "p"}, {"2", "y", "p"}, {"1", "x", "q"}}, 1-out, []int{0}))))
+		}
+	}
+	for _, rs := range []uint64{1, huge} {
+		// a wider key-less table first, then a narrower one
+		add("witness", true, xt.N(xt.LI(2), xt.L(rs), xt.N(
+			useT(3, nil, [][]string{{"1", "x", "p"}, {"1", "x", "q"}}, 0, nil),
+			useT(1, nil, [][]string{{"b"}, {"a"}, {"b"}}, 1, nil))))
+	}
+	nru := 60
+	if ctx.Thorough() {
+		nru = 1500
+	}
+	for i := 0; i < nru; i++ {
+		uses := xt.N()
+		total := 0
+		for j, m := 0, 2+ctx.Pick(3); j < m; j++ {
+			ncols := 1 + ctx.Pick(4)
+			var pk []int
+			if ctx.Pick(5) < 2 {
+				perm := ctx.Rng.Perm(ncols)
+				pk = perm[:1+ctx.Pick(ncols)]
+			}
+			inPK := map[int]bool{}
+			for _, u := range pk {
+				inPK[u] = true
+			}
+			var rem []int
+			if len(pk) > 0 && ctx.Pick(2) == 0 {
+				for cidx := 0; cidx < ncols; cidx++ {
+					if !inPK[cidx] && ctx.Pick(2) == 0 {
+						rem = append(rem, cidx)
+					}
+				}
+			}
+			nrows := ctx.Pick(25)
+			if ctx.Pick(20) == 0 {
+				nrows = 250 + ctx.Pick(20)
+			}
+			alpha := 2 + ctx.Pick(4)
+			rows := make([][]string, nrows)
+			for r := range rows {
+				rows[r] = make([]string, ncols)
+				for cidx := range rows[r] {
+					rows[r][cidx] = c19KeyCells[ctx.Pick(alpha)]
+					if nrows > 100 && cidx == ncols-1 {
+						rows[r][cidx] = fmt.Sprint(ctx.Pick(nrows))
+					}
+				}
+			}
+			total += nrows
+			uses.Add(useT(ncols, pk, rows, ctx.Pick(2), rem))
+			if len(pk) == 0 {
+				ctx.Count("reuse_use_keyless")
+			} else {
+				ctx.Count("reuse_use_keyed")
+			}
+		}
+		rs := []uint64{1, 64, 4096, huge, uint64(8 + ctx.Pick(200))}[ctx.Pick(5)]
+		ctx.Count("reuse_histories")
+		add("reuse", total >= 2, xt.N(xt.LI(2), xt.L(rs), uses))
 	}
 	// ---- histories with Reset / Close ----
 	nh := 40
